@@ -138,6 +138,7 @@ Proof.
   repeat match goal with
   | |- context [match ?x with Some _ => _ | None => _ end] => destruct x
   | |- context [if ?b then _ else _] => destruct b
+  | |- context [match ?f with FUnknown => _ | FA => _ | FX => _ | FY => _ end] => destruct f
   end; cbn [snd]; intros H; try discriminate H; apply negb_true_iff in H; exact H.
 Qed.
 
